@@ -6,16 +6,21 @@ import pipeline
 import talgen
 
 PID = 'C10'
-PROOF_MODULES = ['ChamProofs.Props.C10']
+PROOF_MODULES = ['ChamProofs.Props.C10', 'ChamProofs.Props.C10Scope']
 THEOREMS = ['ChamVerif.C10_translate_once', 'ChamVerif.C10_translate_explicit', 'ChamVerif.C10_empty_not_translated', 'ChamVerif.C10_name_emits_placeholder',
-            'ChamVerif.C10_collapse_idempotent', 'ChamVerif.C10_domain_restored']
+            'ChamVerif.C10_collapse_idempotent', 'ChamVerif.C10_domain_restored', 'ChamVerif.I18n.neutral_all', 'ChamVerif.C10_settings_scoped',
+            'ChamVerif.C10_on_error_leaks']
 LEVEL_TEXT = ('Proved in Lean on the interpreter model: evaluating a Translate node whose body renders calls the translation function exactly once '
               'more than its body does, with msgid = default = the body\'s output with white space collapsed and trimmed, the mapping of the '
               'names collected in the body and the frame\'s domain/context/target, and emits exactly what the function returns '
               '(C10_translate_once); with an explicit id the id is passed and the computed text is the default (C10_translate_explicit); '
               'a body that renders to nothing is not translated (C10_empty_not_translated); an i18n:name child contributes the placeholder '
-              '${name} to the enclosing message and its own markup to the mapping (C10_name_emits_placeholder); i18n:domain is in force '
-              'exactly inside its element (C10_domain_restored). The full contract (nested translations, names under condition/repeat/omit-tag, '
+              '${name} to the enclosing message and its own markup to the mapping (C10_name_emits_placeholder). Settings: for every node, scope, '
+              'state and fuel, whenever an evaluation completes every function frame has the domain, context and target language it had '
+              'before, provided the node contains no tal:on-error at its own function level — a setting is in force exactly inside the '
+              'element that makes it, across macro calls, slot fillers, repeats and translations (C10_settings_scoped, from neutral_all: '
+              'induction on the fuel over the four mutually recursive evaluator functions and every node kind); the proviso is necessary: '
+              'C10_on_error_leaks is the D-10a witness, decided by kernel evaluation of the model. The full contract (nested translations, names under condition/repeat/omit-tag, '
               'i18n:attributes, implicit translation, macro/slot settings) is judged by a constructive oracle over an i18n grammar that '
               'predicts the ordered call log and the output for three translation functions, and the model is tied to the code by '
               'correspondence of call logs.')
